@@ -125,8 +125,8 @@ def showTable (t : Option (List (Key × List Out))) : String :=
   | some [] => "empty"
   | some rows => " ".intercalate ((rows.mergeSort fun a b => keyLe a.1 b.1).map showRow)
 
-def runLine (p : Plan) (w : Nat) (flows : List (List (List (List Scalar)))) (zeroLast : Bool) : String :=
-  showTable (finalTable p (runFlows p zeroLast (flows.map (tagFlow p w))))
+def runLine (p : Plan) (w : Nat) (flows : List (List (List (List Scalar)))) (mask : Nat) : String :=
+  showTable (finalTable p (runFlows p (fun i => mask.testBit i) (flows.map (tagFlow p w))))
 
 def flowAnswer (toks : List String) (membership : Bool) : String :=
   match toks with
@@ -136,12 +136,15 @@ def flowAnswer (toks : List String) (membership : Bool) : String :=
       match parseBody w (body.length + 1) body [] with
       | some (acc, result) =>
         let flows := fixOrder acc
-        let a := runLine p w flows true
-        let b := runLine p w flows false
+        -- every flow's sink map has its own iteration order: all 2^k choices
+        let cands := ((List.range (2 ^ (min flows.length 6))).map (runLine p w flows)).eraseDups
         if membership then
           let r := " ".intercalate result
-          if r == a || r == b then "in" else s!"out {a} || {b}"
-        else if a == b then a else s!"split {a} || {b}"
+          if cands.contains r then "in" else "out " ++ " || ".intercalate cands
+        else
+          match cands with
+          | [a] => a
+          | _ => "split " ++ " || ".intercalate cands
       | none => "bad-op"
     | _, _ => "bad-op"
   | _ => "bad-op"
